@@ -62,8 +62,18 @@ static void vi_wait(void)
 	vi_printed = 0;
 }
 
+/* a message cut at the size of vi_msg may end inside a multi-byte character */
+static void vi_msgtrim(void)
+{
+	int n = strlen(vi_msg);
+	char *beg = n ? uc_beg(vi_msg, vi_msg + n - 1) : vi_msg;
+	if (beg + uc_len(beg) > vi_msg + n)
+		*beg = '\0';
+}
+
 static void vi_drawmsg(void)
 {
+	vi_msgtrim();
 	led_printmsg(vi_msg[0] ? vi_msg : "\n", xrows, xhl ? "---" : "___");
 	vi_msg[0] = '\0';
 }
@@ -306,8 +316,10 @@ void ex_print(char *line)
 	} else if (xvis) {
 		if (line && vi_printed == 0)
 			snprintf(vi_msg, sizeof(vi_msg), "%s", line);
-		if (line && vi_printed == 1)
+		if (line && vi_printed == 1) {
+			vi_msgtrim();
 			led_print(vi_msg, xrows - 1, 0, xhl ? "-ex" : "");
+		}
 		if (vi_printed)
 			term_chr('\n');
 		if (line && vi_printed)
